@@ -183,6 +183,17 @@ func exec(run *core.Run, pl interface{}) {
 				return
 			}
 			if o.err != ref[i].err {
+				// Groups marked deleted are pruned by the wall clock of the
+				// replica that applies PruneShardGroups, so whether a deleted
+				// group is still listed differs between replicas by design of
+				// the property (it speaks of live groups only). Deleting such
+				// a group again answers nil where it lingers and "not found"
+				// where it was pruned; the live state must still agree.
+				if s.Cmd.Type == metacmd.DeleteShardGroup && o.canon == ref[i].canon &&
+					(o.err == "" && ref[i].err == "shard group not found" || o.err == "shard group not found" && ref[i].err == "") {
+					run.Probe("deleted-group-pruned-on-one-clock-only")
+					continue
+				}
 				run.Fail("apply-result-differs-between-replicas", "", "step %d %s: live replica answered %q, lagging/restarted replica %d answered %q", i, s.Cmd.Desc, ref[i].err, r, o.err)
 				return
 			}
